@@ -1,0 +1,41 @@
+//go:build verif
+
+package storage
+
+// Contracts for the verification machinery in /verif (comment-only; see /verif/DESIGN.md).
+//
+// pend(sc) is the ghost end of the payload (write position just after the last indexed section); the store
+// invariant is  wn(w) == pend(sc)  for the writer w that Put uses (sc.dataWriter when present, else sc.writer).
+
+//@ func (*positionTrackingWriter).Write
+//@   implements (io.Writer).Write
+//@   assume no_wrap: 0 <= wn(ptw) && wn(ptw) <= 4611686018427387904
+//@   modifies ptw.offset, wn(ptw), wn(ptw.w)
+//@   ghost before return: wn(ptw) := ptw.offset
+
+//@ func (*positionTrackingWriter).Position
+//@   ensures def [C05,C16]: result == wn(ptw) - wbase(ptw)
+
+//@ func (*StorageCar).Put
+//@   requires ri: (sc.dataWriter != nil ==> wn(sc.dataWriter) == pend(sc) && objinv(sc.dataWriter)) && (sc.dataWriter == nil && sc.writer != nil ==> wn(sc.writer) == pend(sc))
+//@   requires unlocked [C08]: held(sc.mu) == 0
+//@   let werr := call[util.LdWrite#0]
+//@   call[store.ShouldPut#0] assert options [C04]: ref(arg0) == ref(sc.idx) && arg1 == keyCid && arg2 == sc.opts.MaxIndexCidSize && arg3 == sc.opts.StoreIdentityCIDs && arg4 == sc.opts.BlockstoreAllowDuplicatePuts && arg5 == sc.opts.BlockstoreUseWholeCIDs
+//@   call[util.LdWrite#0] assert section [C01,C05]: ref(arg0) == ref(w) && len(arg1) == 2 && bytesval(arg1[0]) == cidbytes(keyCid) && ref(arg1[1]) == ref(data)
+//@   call[util.LdWrite#0] assert writer_choice [C01,C05]: ite(sc.dataWriter != nil, ref(w) == ref(sc.dataWriter), ref(w) == ref(sc.writer))
+//@   call[InsertionIndex.InsertNoReplace#0] assert record [C01,C03,C05]: ref(arg0) == ref(sc.idx) && arg1 == keyCid && arg2 == wrap_u64(old(pend(sc)) - wbase(w))
+//@   call[InsertionIndex.InsertNoReplace#0] assert after_write [C06,C16]: werr == nil
+//@   ghost after call[InsertionIndex.InsertNoReplace#0]: pend(sc) := wn(w)
+//@   ensures ri_on_return [C16]: sc.dataWriter != nil ==> wn(sc.dataWriter) == pend(sc)
+//@   ensures ri_on_return_stream [C16]: sc.dataWriter == nil && sc.writer != nil && !sc.closed ==> wn(sc.writer) == pend(sc)
+//@   ensures closed_err [C04]: old(sc.closed) && cerr == nil ==> err == ErrClosed && pend(sc) == old(pend(sc)) && nrec(sc.idx) == old(nrec(sc.idx))
+//@   ensures released [C08]: held(sc.mu) == 0
+//@   let keyc, cerr := call[cid.Cast#0]
+
+//@ func (*StorageCar).Finalize
+//@   requires unlocked [C08]: held(sc.mu) == 0
+//@   requires writer: sc.dataWriter != nil || sc.opts.WriteAsCarV1 || sc.writer == nil
+//@   requires writer_kind: sc.writer == nil || typeis(sc.writer, "*v2/storage.positionTrackingWriter")
+//@   call[store.Finalize#0] assert args [C05]: arg1 == sc.header && ref(arg2) == ref(sc.idx) && arg3 == wrap_u64(wrap_s64(wn(sc.dataWriter) - wbase(sc.dataWriter))) && arg4 == sc.opts.StoreIdentityCIDs && arg5 == sc.opts.IndexCodec
+//@   ensures closed [C04]: err == nil && typeis(old(sc.idx), "*v2/index.InsertionIndex") && old(sc.writer) != nil ==> sc.closed
+//@   ensures released [C08]: held(sc.mu) == 0
